@@ -389,3 +389,239 @@ func verifScenarioFlatFindMissing() {
 	}
 	vnd.Observe("fm", uint64(len(f.lbm.puts)), uint64(len(f.klm.puts)))
 }
+
+// ---------------------------------------------------------------------------
+// Hierarchical CAS store over the same stubs.
+// ---------------------------------------------------------------------------
+
+var verifHierDigest = func() digest.Digest {
+	g := digest.MustNewFunction("a/b", remoteexecution.DigestFunction_MD5).NewGenerator(2)
+	g.Write(verifObjData)
+	return g.Sum()
+}()
+
+type verifHier struct {
+	klm  *verifKLM
+	lbm  *verifLBM
+	lock *sync.RWMutex
+	ba   *hierarchicalCASBlobAccess
+}
+
+func verifNewHier() *verifHier {
+	h := &verifHier{klm: &verifKLM{}, lbm: &verifLBM{kind: vnd.Choose(3)}, lock: &sync.RWMutex{}}
+	h.ba = NewHierarchicalCASBlobAccess(h.klm, h.lbm, h.lock, nil).(*hierarchicalCASBlobAccess)
+	return h
+}
+
+// verifHierIndexWrites: every index write carries either the location of a
+// finalizer that succeeded or (lookup entries only) a location the index itself
+// returned for the canonical key, and is filed under the canonical key or one
+// of the lookup keys of the digest's own instance-name chain.
+func verifHierIndexWrites(h *verifHier, d digest.Digest) {
+	canonical := getCanonicalKey(d)
+	lookups := getAllLookupKeys(d)
+	for _, w := range h.klm.puts {
+		okKey := w.key == canonical
+		for _, k := range lookups {
+			if w.key == k {
+				okKey = true
+			}
+		}
+		vnd.Assert(okKey, "index entry written under a key outside the digest's own instance-name chain")
+	}
+}
+
+func verifScenarioHierGet() {
+	h := verifNewHier()
+	ctx := context.Background()
+	b := h.ba.Get(ctx, verifHierDigest)
+	how := vnd.Choose(5)
+	data, err := verifConsume(b, how)
+	verifAllClosedOnce(h.lbm)
+	verifHierIndexWrites(h, verifHierDigest)
+	if err == nil {
+		vnd.Cover("get-ok")
+		vnd.Assert(string(data) == string(verifObjData), "Get completed with bytes other than the object's")
+	} else {
+		vnd.Cover("get-failed")
+	}
+	if len(h.lbm.puts) > 0 {
+		vnd.Cover("refresh-attempted")
+	}
+	// the canonical key is only ever WRITTEN with the location of a successful finalizer
+	canonical := getCanonicalKey(verifHierDigest)
+	for _, w := range h.klm.puts {
+		if w.key == canonical {
+			ok := false
+			for _, p := range h.lbm.puts {
+				if p.finalOK && p.loc == w.loc {
+					ok = true
+				}
+			}
+			vnd.Assert(ok, "canonical entry written with a location that no successful finalizer returned")
+		}
+	}
+	vnd.Observe("hget", uint64(len(h.lbm.sources)), uint64(len(h.lbm.puts)), uint64(len(h.klm.puts)))
+}
+
+func verifScenarioHierPut() {
+	h := verifNewHier()
+	ctx := context.Background()
+	src := &verifSource{data: verifObjData}
+	valid := vnd.Choose(2) == 0
+	if !valid {
+		src.data = []byte("zz")
+	}
+	b := buffer.NewCASBufferFromReader(verifHierDigest, src, buffer.UserProvided)
+	err := h.ba.Put(ctx, verifHierDigest, b)
+	vnd.Assert(src.closes == 1, "upload buffer not released exactly once")
+	verifHierIndexWrites(h, verifHierDigest)
+	for _, p := range h.lbm.puts {
+		vnd.Assert(p.consumed && p.finalRun == 1, "allocated space whose writer/finalizer did not run exactly once")
+	}
+	if !valid {
+		vnd.Cover("put-invalid-content")
+		vnd.Assert(err != nil, "upload of mismatching content acknowledged")
+		vnd.Assert(len(h.klm.puts) == 0, "an upload with mismatching content created an index entry (access granted without valid content)")
+	}
+	if err == nil {
+		vnd.Cover("put-ok")
+		lookup := getMostSpecificLookupKey(verifHierDigest)
+		found := false
+		for _, w := range h.klm.puts {
+			if w.key == lookup {
+				found = true
+			}
+		}
+		vnd.Assert(found, "acknowledged upload did not create the uploader's lookup entry")
+		if len(h.lbm.puts) == 0 {
+			vnd.Cover("put-existing-object")
+		}
+	} else {
+		vnd.Cover("put-failed")
+	}
+	vnd.Observe("hput", uint64(len(h.lbm.puts)), uint64(len(h.klm.puts)))
+}
+
+func verifScenarioHierFindMissing() {
+	h := verifNewHier()
+	ctx := context.Background()
+	set := verifHierDigest.ToSingletonSet()
+	missing, err := h.ba.FindMissing(ctx, set)
+	for _, s := range h.lbm.sources {
+		vnd.Assert(s.closes == 1, "a block reader opened by FindMissing was not closed exactly once")
+	}
+	for _, p := range h.lbm.puts {
+		vnd.Assert(p.consumed && p.finalRun == 1, "allocated space whose writer/finalizer did not run exactly once")
+	}
+	verifHierIndexWrites(h, verifHierDigest)
+	if err == nil {
+		vnd.Cover("findmissing-ok")
+		vnd.Assert(missing.Length() <= 1, "more digests reported missing than were asked about")
+	} else {
+		vnd.Cover("findmissing-failed")
+	}
+	if len(h.lbm.puts) > 0 {
+		vnd.Cover("findmissing-refreshed")
+	}
+	vnd.Observe("hfm", uint64(len(h.lbm.puts)), uint64(len(h.klm.puts)))
+}
+
+// ---------------------------------------------------------------------------
+// Touch scenarios (C05 T2/T3): quiescent index and location map — lookups are
+// a function of the key, needs-refresh is "block index below the old limit" —
+// and the index reflects successful writes.
+// ---------------------------------------------------------------------------
+
+func (m *verifKLM) applyPut(key Key, loc Location) {
+	if m.fixed {
+		if m.fixedKind == nil {
+			m.fixedKind, m.fixedLoc = map[Key]int{}, map[Key]Location{}
+		}
+		m.fixedKind[key], m.fixedLoc[key] = 0, loc
+	}
+}
+
+type verifQuiescentKLM struct{ *verifKLM }
+
+func (m verifQuiescentKLM) Put(key Key, loc Location) error {
+	m.verifKLM.puts = append(m.verifKLM.puts, verifKLMPut{key: key, loc: loc})
+	if vnd.Bool() {
+		return verifErrIndex
+	}
+	m.verifKLM.applyPut(key, loc)
+	return nil
+}
+
+func verifScenarioFlatTouch(findMissing bool) {
+	klm := &verifKLM{fixed: true}
+	lbm := &verifLBM{kind: vnd.Choose(3), quiescent: true, oldLimit: vnd.Choose(4)}
+	lock := &sync.RWMutex{}
+	ba := NewFlatBlobAccess(verifQuiescentKLM{klm}, lbm, digest.KeyWithoutInstance, lock, "verif", nil).(*flatBlobAccess)
+	ctx := context.Background()
+	key := ba.getKey(verifObjDigest)
+	touch := func() bool {
+		if findMissing {
+			missing, err := ba.FindMissing(ctx, verifObjDigest.ToSingletonSet())
+			return err == nil && missing.Empty()
+		}
+		_, err := ba.Get(ctx, verifObjDigest).ToByteSlice(100)
+		return err == nil
+	}
+	if !touch() {
+		vnd.Cover("touch-failed-or-absent")
+		return
+	}
+	vnd.Cover("touched")
+	// T2: the object's newest location is outside the old blocks
+	vnd.Assert(klm.fixedKind[key] == 0, "object reported present/readable but the index does not hold it")
+	vnd.Assert(klm.fixedLoc[key].BlockIndex >= lbm.oldLimit, "after a successful touch the object's newest location is still in an old block")
+	if len(lbm.puts) > 0 {
+		vnd.Cover("touch-refreshed")
+	}
+	// T3: repeating the touch writes nothing
+	p0, k0 := len(lbm.puts), len(klm.puts)
+	ok2 := touch()
+	vnd.Assert(ok2, "repeating a successful touch failed on a quiescent store")
+	vnd.Assert(len(lbm.puts) == p0, "repeating a touch allocated space again")
+	vnd.Assert(len(klm.puts) == k0, "repeating a touch wrote the index again")
+	for _, s := range lbm.sources {
+		vnd.Assert(s.closes == 1, "a block reader was not closed exactly once")
+	}
+	vnd.Observe("touch", uint64(p0), uint64(k0))
+}
+
+func verifScenarioHierTouch(findMissing bool) {
+	klm := &verifKLM{fixed: true}
+	lbm := &verifLBM{kind: vnd.Choose(3), quiescent: true, oldLimit: vnd.Choose(4)}
+	lock := &sync.RWMutex{}
+	ba := NewHierarchicalCASBlobAccess(verifQuiescentKLM{klm}, lbm, lock, nil).(*hierarchicalCASBlobAccess)
+	ctx := context.Background()
+	touch := func() bool {
+		if findMissing {
+			missing, err := ba.FindMissing(ctx, verifHierDigest.ToSingletonSet())
+			return err == nil && missing.Empty()
+		}
+		_, err := ba.Get(ctx, verifHierDigest).ToByteSlice(100)
+		return err == nil
+	}
+	if !touch() {
+		vnd.Cover("touch-failed-or-absent")
+		return
+	}
+	vnd.Cover("touched")
+	// T2: the least specific lookup entry that answers now points outside the old blocks
+	_, loc, err := ba.getLeastSpecificLookupEntry(getAllLookupKeys(verifHierDigest))
+	klm.gets = 0
+	vnd.Assert(err == nil, "object reported present/readable but no lookup entry answers")
+	vnd.Assert(loc.BlockIndex >= lbm.oldLimit, "after a successful touch the answering lookup entry still points into an old block")
+	if len(lbm.puts) > 0 {
+		vnd.Cover("touch-refreshed")
+	}
+	p0, k0 := len(lbm.puts), len(klm.puts)
+	ok2 := touch()
+	vnd.Assert(ok2, "repeating a successful touch failed on a quiescent store")
+	vnd.Assert(len(lbm.puts) == p0, "repeating a touch allocated space again")
+	vnd.Assert(len(klm.puts) == k0, "repeating a touch wrote the index again")
+	vnd.Observe("htouch", uint64(p0), uint64(k0))
+}
